@@ -58,6 +58,19 @@ structure DSt where
   patchGuarded : Bool := true
   /-- calls whose decision was taken before the guard (they run with the defective body shape) -/
   searly : List Nat := []
+  /-- queued calls (spawnq) that run by themselves once they are granted; finished ones with their answer -/
+  squeued : List (String × Nat) := []
+  sdone : List (String × String) := []
+  /-- completed operations on "x" in completion order, for the sequential Spec: (kind, argument, answer, who) -/
+  shist : List (String × Int × String × String) := []
+  /-- facts: ShiftByKeys copies and deletes in one guard session; DeleteTreasure believes deleteHandler's result -/
+  shiftOneSession : Bool := true
+  delTrustsHandler : Bool := true
+  /-- a Set was queued behind a delete and, without the re-check, wrote on the removed object of a persisted key -/
+  orphanWrite : Bool := false
+  pendingFlag : String := ""
+  /-- fact: the gateway's Set / Uint32Slice* bodies take object and guard from the re-checking helper -/
+  setRecheck : Bool := true
 
 def tidOf (n : String) : Option Nat :=
   match n with | "A" => some 1 | "B" => some 2 | "C" => some 3 | "D" => some 4 | _ => none
@@ -222,6 +235,11 @@ def sop (d : DSt) : Nat → Int → Int := fun t v =>
   | some (_, "seta", a) => if v == 0 then a else v
   | some (_, "setx", a) => if v == 0 then 0 else a
   | some (_, "del", _) => 0
+  | some (_, "set", a) => a
+  | some (_, "inc", _) => v + 1
+  | some (_, "inchold", _) => v + 1
+  | some (_, "shift", _) => 0
+  | some (_, "shiftread", _) => v
   | some (_, "pdel", _) => 0
   | some (_, "pinc", _) => v + 1
   | _ => v
@@ -252,44 +270,136 @@ def sstatus (d : DSt) (kind : String) (t : Nat) : String :=
   | "seta" => if loc == 0 then "WROTE" else "UNCHANGED"
   | "setx" => if loc == 0 then "NOT_FOUND" else "WROTE"
   | "pinc" => if loc == 0 then "CREATED" else "PATCHED"
+  | "set" => "WROTE"
+  | "inc" => s!"inc={loc + 1}"
+  | "inchold" => s!"inc={loc + 1}"
+  | "shift" => if loc == 0 then "shifted=none" else s!"shifted={loc}"
+  | "shiftread" => if loc == 0 then "shifted=none" else s!"shifted={loc}"
   | _ => if loc == 0 then "NOT_FOUND" else "DELETED"
 
 /-- the log no longer replays as a sequential history: some response is not what the Spec returns there -/
 def sflag (d : DSt) : String :=
   if (Hv.Lin.replay (sop d) 0 d.s.log).isNone || (Hv.Lin.replay (sop d) 0 d.sp.log).isNone then "\t#F:C09-read-outside-guard" else ""
 
+/-- sequential Spec of key "x" (0 = absent): the answer an operation must give in state `v`, and the next state -/
+def xspec (kind : String) (a : Int) (v : Int) : String × Int :=
+  match kind with
+  | "seta" => if v == 0 then ("WROTE", a) else ("UNCHANGED", v)
+  | "setx" => if v == 0 then ("NOT_FOUND", v) else ("WROTE", a)
+  | "set" => ("WROTE", a)
+  | "inc" => (s!"inc={v + 1}", v + 1)
+  | "shift" => (if v == 0 then "shifted=none" else s!"shifted={v}", 0)
+  | _ => (if v == 0 then "NOT_FOUND" else "DELETED", 0)
+
+/-- who gave an answer that a sequential execution in completion order does not give -/
+def xbad (d : DSt) : List String :=
+  (d.shist.foldl (fun (acc : Int × List String) e =>
+    let r := xspec e.1 e.2.1 acc.1
+    (r.2, if r.1 == e.2.2.1 then acc.2 else acc.2 ++ [e.2.2.2])) (0, [])).2
+
+def xflagFor (d : DSt) (who : String) : String := if (xbad d).contains who then "\t#F:C09-read-outside-guard" else ""
+
+def specKind (k : String) : String := if k == "inchold" then "inc" else if k == "shiftread" then "shift" else k
+
+/-- record a finished call on "x" -/
+def xrecord (d : DSt) (t : Nat) : DSt :=
+  let kind := kindOf d t
+  if isP kind || kind == "shiftread" then d else
+  let a := ((d.sops.find? (fun e => e.1 == t)).map (fun e => e.2.2)).getD 0
+  { d with shist := d.shist ++ [(specKind kind, a, sstatus d kind t, s!"#{t}")] }
+
+/-- queued calls run by themselves as soon as the guard is theirs -/
+def spump (fuel : Nat) (d : DSt) : DSt :=
+  match fuel with
+  | 0 => d
+  | fuel + 1 =>
+    match d.squeued.find? (fun (e : String × Nat) => ((reg d e.2).th e.2).pc < 5 && ((reg (srun 8 d e.2) e.2).th e.2).pc == 5) with
+    | none => d
+    | some (n, t) =>
+      let d1 := srun 8 d t
+      let kind := kindOf d1 t
+      if kind == "shiftread" then
+        -- the defective ShiftByKeys: its copy is taken, the delete is a second guard session at the end of the queue
+        let t2 := t + 100
+        let d2 := srun 1 { d1 with sops := d1.sops ++ [(t2, "shift", 0)], squeued := d1.squeued.map (fun e => if e.1 == n then (n, t2) else e) } t2
+        -- what it will answer is the copy it has now
+        spump fuel { d2 with sdone := d2.sdone ++ [(n ++ "#", sstatus d1 "shiftread" t)] }
+      else
+        let st := if kind == "shift" && t ≥ 100 then ((d1.sdone.find? (fun e => e.1 == n ++ "#")).map (·.2)).getD (sstatus d1 kind t) else sstatus d1 kind t
+        let d2 := { d1 with squeued := d1.squeued.filter (fun e => e.1 != n), sdone := d1.sdone ++ [(n, st)] }
+        let a := ((d2.sops.find? (fun e => e.1 == t)).map (fun e => e.2.2)).getD 0
+        spump fuel { d2 with shist := d2.shist ++ [(specKind kind, a, st, n)] }
+
 def ssync (d : DSt) (kind : String) (a : Int) : DSt × String :=
   let t := d.snext
-  let d1 := srun 8 { d with sops := d.sops ++ [(t, kind, a)], snext := t + 1 } t
+  let d1 := xrecord (srun 8 { d with sops := d.sops ++ [(t, kind, a)], snext := t + 1 } t) t
   (d1, s!"{kind} {sstatus d1 kind t}" ++ sflag d1)
 
 def sstep (d : DSt) (ws : List String) : DSt × String :=
   match ws with
+  | ["reload"] =>
+    -- close + re-summon: a write that landed on a removed object of a persisted key was flushed as a delete
+    if d.orphanWrite && d.kind != "m" then
+      ({ d with s := { d.s with val := 0 }, orphanWrite := false, pendingFlag := "\t#F:C09-delete-increment-stale-object" }, "reload")
+    else if d.kind == "m" then ({ d with s := { d.s with val := 0 } }, "reload")
+    else (d, "reload")
+  | ["poll", n] =>
+    match d.sdone.find? (fun e => e.1 == n) with
+    | some (_, st) => ({ d with sdone := d.sdone.filter (fun e => e.1 != n) }, s!"{n} done {st}" ++ sflag d ++ xflagFor d n)
+    | none => if d.squeued.any (fun e => e.1 == n) then (d, s!"{n} wait-timeout") else (d, "bad-op")
+  | ["spawn", n, kind] =>
+    if kind != "del" && kind != "inchold" && kind != "pinc" then (d, "bad-op") else
+    if kind == "pinc" then
+      match tidOf n with
+      | some t =>
+        if d.sops.any (fun e => e.1 == t) then (d, "bad-op") else
+        let d0 := { d with sops := d.sops ++ [(t, "pinc", 0)] }
+        -- parked after the fetch: with the defective shape a call that found no record has already decided "new"
+        let d1 := if !d.patchGuarded && d.sp.val == 0 then srun 1 { d0 with searly := d0.searly ++ [t] } t else d0
+        ({ d1 with sparked := d1.sparked ++ [(n, t)] }, s!"{n}@fetched")
+      | none => (d, "bad-op")
+    else
+    match tidOf n with
+    | some t =>
+      if d.sops.any (fun e => e.1 == t) then (d, "bad-op") else
+      -- takes the guard and parks holding it
+      let d1 := srun 2 { d with sops := d.sops ++ [(t, kind, 0)] } t
+      if ((reg d1 t).th t).pc == 2 then ({ d1 with sparked := d1.sparked ++ [(n, t)] }, s!"{n}@holds") else (d, "bad-op")
+    | none => (d, "bad-op")
+  | "spawnq" :: n :: kind :: rest =>
+    match tidOf n with
+    | some t =>
+      if d.sops.any (fun e => e.1 == t) then (d, "bad-op") else
+      let a : Int := (rest.head?.bind (·.toInt?)).getD 0
+      let holderIsDel := d.sparked.any (fun e => kindOf d e.2 == "del")
+      let k := if kind == "shift" && !d.shiftOneSession then "shiftread" else kind
+      let early := kind == "del" && !d.delTrustsHandler
+      let d0 := { d with sops := d.sops ++ [(t, k, a)], searly := if early then d.searly ++ [t] else d.searly,
+                         orphanWrite := d.orphanWrite || (kind == "set" && !d.setRecheck && holderIsDel) }
+      -- enqueue (the defective delete has looked at the key first)
+      let d1 := srun (if early then 2 else 1) d0 t
+      let d2 := spump 8 { d1 with squeued := d1.squeued ++ [(n, t)] }
+      match d2.sdone.find? (fun e => e.1 == n) with
+      | some (_, st) => ({ d2 with sdone := d2.sdone.filter (fun e => e.1 != n) }, s!"{n} done {st}" ++ sflag d2 ++ xflagFor d2 n)
+      | none => (d2, s!"{n} wait-timeout")
+    | none => (d, "bad-op")
   | ["go", n] =>
     match d.sparked.find? (fun e => e.1 == n) with
     | none => (d, "bad-op")
     | some (_, t) =>
-      let d1 := srun 8 { d with sparked := d.sparked.filter (fun e => e.1 != n) } t
-      (d1, s!"{n} done {sstatus d1 (kindOf d t) t}" ++ sflag d1)
+      let d1 := xrecord (srun 8 { d with sparked := d.sparked.filter (fun e => e.1 != n) } t) t
+      let d2 := spump 8 d1
+      (d2, s!"{n} done {sstatus d1 (kindOf d t) t}" ++ sflag d1 ++ xflagFor d1 s!"#{t}")
   | ["del"] => ssync d "del" 0
   | ["pdel"] => ssync d "pdel" 0
   | ["pinc"] => ssync d "pinc" 0
-  | ["get"] => (d, if d.s.val == 0 then "get v=absent" else s!"get v={d.s.val}")
+  | ["get"] => ({ d with pendingFlag := "" }, (if d.s.val == 0 then "get v=absent" else s!"get v={d.s.val}") ++ d.pendingFlag)
   | ["pget"] => (d, if d.sp.val == 0 then "pget n=absent" else s!"pget n={d.sp.val}")
   | [kind, v] =>
     if kind != "seta" && kind != "setx" then (d, "bad-op") else
     match v.toInt? with
     | none => (d, "bad-op")
     | some a => ssync d kind a
-  | ["spawn", n, "pinc"] =>
-    match tidOf n with
-    | some t =>
-      if d.sops.any (fun e => e.1 == t) then (d, "bad-op") else
-      let d0 := { d with sops := d.sops ++ [(t, "pinc", 0)] }
-      -- parked after the fetch: with the defective shape a call that found no record has already decided "new"
-      let d1 := if !d.patchGuarded && d.sp.val == 0 then srun 1 { d0 with searly := d0.searly ++ [t] } t else d0
-      ({ d1 with sparked := d1.sparked ++ [(n, t)] }, s!"{n}@fetched")
-    | none => (d, "bad-op")
   | ["spawn", n, kind, v] =>
     match tidOf n, v.toInt? with
     | some t, some a =>
@@ -311,7 +421,7 @@ def step (d : DSt) (line : String) : DSt × String :=
   match words line with
   | ["case", _, mode, kind] =>
     ({ d with mode := mode, kind := kind, wq := [], dirtyW := false, lastBy := "", byOf := [], st := Hv.Stale.init 5, ndel := 0, s := Hv.Lin.init (if mode == "setx" then 0 else 5), ths := [], deleted := false,
-              resurrected := false, cleared := false, fresh := false, sops := [], sparked := [], snext := 10,
+              resurrected := false, cleared := false, fresh := false, sops := [], sparked := [], snext := 10, squeued := [], sdone := [], shist := [], orphanWrite := false, pendingFlag := "",
               sp := Hv.Lin.init 0, searly := [] }, line)
   | ws =>
     if d.mode == "setx" then sstep d ws else
@@ -363,7 +473,10 @@ def run (args : List String) : IO UInt32 := do
                   cleared := false, recheck := arg kv "rechecksObjectUnderGuard" == "yes", fresh := false,
                   setUnderGuard := arg kv "setTestsExistenceUnderGuard" != "no",
                   patchGuarded := arg kv "bodyShape" != "readBeforeAcquire",
-                  respAfterSave := arg kv "bodyShape" == "respAfterSave" }
+                  respAfterSave := arg kv "bodyShape" == "respAfterSave",
+                  shiftOneSession := arg kv "shiftByKeysOneSession" != "no",
+                  setRecheck := arg kv "gatewayWritesRecheckObject" != "no",
+                  delTrustsHandler := arg kv "deleteTrustsHandlerResult" != "no" }
   return 0
 
 end Driver.C09
